@@ -581,7 +581,7 @@ CORPUS = [
 
 
 def generate(rng, tier):
-    n = 1000 if tier == "quick" else 40000
+    n = 840 if tier == "quick" else 40000
     cases = list(CORPUS)
     kinds = ["nearest"] * 4 + ["identity"] * 2 + ["linaff"] * 3 + ["linrand"] + ["shifted"] * 2
     for i in range(n):
